@@ -92,6 +92,15 @@ func NewCmdLine(ctx *Context, cmdType CmdLineType) *CmdLine {
 		a.evasionPatterns[suffixExpandedCommand] = ctx.rootContext.Configuration().Patterns.AntiEvasionNoSpaceSuffix.Windows
 	}
 
+	// The patterns are pasted between the characters of a command. A pattern with an
+	// alternation on its top level must be a unit of its own, otherwise the alternation
+	// would swallow the neighbouring characters.
+	for key, pattern := range a.evasionPatterns {
+		if hasTopLevelAlternation(pattern) {
+			a.evasionPatterns[key] = "(?:" + pattern + ")"
+		}
+	}
+
 	return a
 }
 
